@@ -33,7 +33,7 @@ Definition eend (x : expr) : Z :=
 
 (* position-free trees *)
 Inductive sexpr :=
-| SIdent (v : list Z)
+| SIdent (k : kind) (v : list Z)
 | SMissing
 | SLit (k : kind) (v : list Z)
 | SPrefix (op : kind) (x : sexpr)
@@ -42,13 +42,13 @@ Inductive sexpr :=
 | SCond (c t f : sexpr)
 | SArr (es : list sexpr)
 | SParen (x : sexpr)
-| SSel (x : sexpr) (name : list Z) (assert : bool)
+| SSel (x : sexpr) (nk : kind) (name : list Z) (assert : bool)
 | SSelMissing (x : sexpr) (assert : bool)
 | SCall (f : sexpr) (args : list sexpr) (spread : bool).
 
 Fixpoint strip (x : expr) : sexpr :=
   match x with
-  | EIdent _ v _ _ => SIdent v
+  | EIdent k v _ _ => SIdent k v
   | EMissing _ => SMissing
   | ELit k v _ _ => SLit k v
   | EPrefix op _ _ a _ _ => SPrefix op (strip a)
@@ -57,7 +57,7 @@ Fixpoint strip (x : expr) : sexpr :=
   | ECond c _ _ t _ _ _ f _ _ => SCond (strip c) (strip t) (strip f)
   | EArr es _ _ _ _ => SArr (map strip es)
   | EParen a _ _ => SParen (strip a)
-  | ESel a (EIdent _ v _ _) asrt _ _ => SSel (strip a) v asrt
+  | ESel a (EIdent k v _ _) asrt _ _ => SSel (strip a) k v asrt
   | ESel a _ asrt _ _ => SSelMissing (strip a) asrt
   | ECall f args _ _ sp _ _ => SCall (strip f) (map strip args) (match sp with Some _ => true | None => false end)
   end.
